@@ -1,12 +1,12 @@
 #!/bin/bash
 # usage: run.sh patch  -> runs all 20 checks on the patched scratch tree, prints only FAIL lines
-WT=/tmp/allchk_wt
+WT=${ALLCHK_WT:-/tmp/allchk_wt}
 if [ ! -d $WT ]; then git -C /repo worktree add -f --detach $WT HEAD >/dev/null 2>&1 || exit 3; fi
 git -C $WT checkout -q --detach $(git -C /repo rev-parse HEAD) && git -C $WT checkout -q -- . && git -C $WT clean -fdq
 git -C $WT apply "$1" || { echo "PATCH-DOES-NOT-APPLY $1"; exit 3; }
-(cd $WT && CARGO_TARGET_DIR=/tmp/allchk_target cargo check --offline --lib 2>&1 | grep -E "^error" -A5 | head -10)
+(cd $WT && CARGO_TARGET_DIR=${ALLCHK_WT:-/tmp/allchk}_target cargo check --offline --lib 2>&1 | grep -E "^error" -A5 | head -10)
 for c in C01 C02 C03 C04 C05 C06 C07 C08 C09 C10 C11 C12 C13 C14 C15 C16 C17 C18 C19 C20; do
-  out=$(MAMBA_REPO=$WT VERIF_EVIDENCE_DIR=/tmp/mut_evidence /verif/check $c --tier quick 2>&1); rc=$?
+  out=$(MAMBA_REPO=$WT VERIF_EVIDENCE_DIR=${ALLCHK_WT:-/tmp/mut}_evidence /verif/check $c --tier quick 2>&1); rc=$?
   if [ $rc -ne 0 ]; then echo "[$c rc=$rc]"; echo "$out" | grep -A1 "^VIOLATION\|CHECKER" | grep -v "^--" | head -6 | cut -c1-330; fi
 done
 echo "done $(basename $1)"
